@@ -33,7 +33,7 @@ func VerifC10Attachment() {
 		case 0: // arbitrary bytes
 			maxL := 6
 			if vrt_Tier() > 0 {
-				maxL = 12
+				maxL = 8
 			}
 			conn.reads = append(conn.reads, vrt_Bytes("raw", 1+vrt_Choose("rawLen", maxL)))
 		case 1: // control frame with a short arbitrary body (any of the three IDs or another one)
